@@ -7,7 +7,7 @@ the rows the real program value held when the call started (gen/indexed_tie.py):
 import json
 import os
 
-from .. import c07_gen, dl, engine_tie, gen_dl, indexed_tie, lib, plan_model, scc_shapes
+from .. import c01_macroexpr, c07_gen, dl, engine_tie, gen_dl, indexed_tie, lib, plan_model, scc_shapes
 
 PROP = "C01"
 PROP_FILE = "Props/C01.v"
@@ -34,7 +34,8 @@ def gen_cases(tier, seed):
                 inputs += extra
                 styles += ["join_repeat"] * len(extra)
         cases.append(dict(id="c01_%d" % i, prog=p, inputs=inputs, styles=styles))
-    return cases + gen_scc_cases(tier, seed)
+    # last: base programs of the "expressions written through macro invocations" family (gen/c01_macroexpr.py; own random stream)
+    return cases + gen_scc_cases(tier, seed) + c01_macroexpr.gen_cases(tier, seed, PROP)
 
 
 SCC_OPTS_MULTI = dict(p_rec=0.6, p_rec_union=0.7, rec_kinds=["lin", "nonlin", "symtrans", "symtrans", "mutual", "mutual"])
@@ -99,6 +100,11 @@ def tie(tier, seed, replay):
             mism, st = indexed_tie.replay_case(rp["case"])
             return dict(evaluations=st["histories"], distinct_nontrivial=st["histories"], rule="replay of one stored history (gen/indexed_tie.py)", samples=[], distribution={},
                         mismatches=mism, trusted_base=[], assumptions=[], extra={})
+        if "variant_program" in rp["case"] and "prog_ast" in rp["case"]:
+            # a macro rendering of a base program (gen/c01_macroexpr.py): the base through the engine tie, the stored text through rustc
+            mism, st = c01_macroexpr.replay_case(rp["case"], decode_case)
+            return dict(evaluations=st["runs"], distinct_nontrivial=st["runs_deriving"], rule="replay of one stored macro rendering (gen/c01_macroexpr.py)", samples=[], distribution={},
+                        mismatches=mism, trusted_base=[], assumptions=[], extra={})
         cases = [c for c in load_corpus_from([rp["case"]])]
     else:
         cases = load_corpus() + gen_cases(tier, seed)
@@ -137,6 +143,10 @@ def tie(tier, seed, replay):
             results += engine_tie.run(PROP, sat[i:i + chunk], tag="c01sat")
     mism, feats, shapes, distinct = [], {}, {}, set()
     nrec = 0
+    # the renderings of the gen/c01_macroexpr.py base programs with their expressions written through Rust macro invocations
+    # (PROG only) against the base program's least model
+    mx_mism, mx_stats = c01_macroexpr.run_variants(results)
+    mism += mx_mism
     # the planner model (Plan/PlanModel.v compile_model, proved to produce only plans the validator accepts) against the plan the
     # real macro dumped for the same programs; and the per-index engine (Engine/IndexedEval.v) against the real index fields
     plan_stats, idx = {}, None
@@ -176,8 +186,9 @@ def tie(tier, seed, replay):
     sample = [dict(program=r["text"], summary=r["summary"], input=r["case"]["inputs"][0],
                    impl={k: v[1][:6] for k, v in __import__("gen.prog", fromlist=["x"]).canon_snap(r["impl"][0]["snaps"][-1]).items()} if r["impl"] and "snaps" in r["impl"][0] else r["impl"])
               for r in results[:3]]
-    return dict(evaluations=sum(len(r["case"]["inputs"]) for r in results) + (idx["evaluations"] if idx else 0), distinct_nontrivial=len(distinct) + (idx["coverage"]["least_model_checks_where_the_call_had_to_derive"] if idx else 0),
-                rule="random core programs (1-6 rules, 1-4 body items, relations of arity 1-3; shapes free/linear/non-linear/mutual/chain) x 3-4 input databases (empty, singleton, unequal, dense, chains); programs with deep / irregular stratum DAGs (gen/scc_shapes.py: 4-13 strata, diamonds with arms of different length, skip edges, fan-in of chains of different length, recursive strata in the middle, several rule-level edges between one pair of strata, rules in shuffled / consumers-first / interleaved textual order) x 2 inputs on which the stratum edges are sensitive (the consumer evaluated before that producer misses tuples); then a second phase of nearly saturated inputs (the least model of a first-phase input with one head relation reset to its original rows); non-trivial = the plan has a looping SCC and the run derives at least one new fact; distinct = distinct (plan summary, input).  PLUS histories of one program value (any rows, any index fields): " + (idx["rule"] if idx else "-") + "; counted as non-trivial there: calls of run() / run_timeout() == true that had to derive at least one tuple and were compared with the least model of the rows present",
+    return dict(evaluations=sum(len(r["case"]["inputs"]) for r in results) + (idx["evaluations"] if idx else 0) + mx_stats["runs"],
+                distinct_nontrivial=len(distinct) + (idx["coverage"]["least_model_checks_where_the_call_had_to_derive"] if idx else 0) + mx_stats["runs_deriving"],
+                rule="random core programs (1-6 rules, 1-4 body items, relations of arity 1-3; shapes free/linear/non-linear/mutual/chain) x 3-4 input databases (empty, singleton, unequal, dense, chains); programs with deep / irregular stratum DAGs (gen/scc_shapes.py: 4-13 strata, diamonds with arms of different length, skip edges, fan-in of chains of different length, recursive strata in the middle, several rule-level edges between one pair of strata, rules in shuffled / consumers-first / interleaved textual order) x 2 inputs on which the stratum edges are sensitive (the consumer evaluated before that producer misses tuples); then a second phase of nearly saturated inputs (the least model of a first-phase input with one head relation reset to its original rows); non-trivial = the plan has a looping SCC and the run derives at least one new fact; distinct = distinct (plan summary, input).  PLUS histories of one program value (any rows, any index fields): " + (idx["rule"] if idx else "-") + "; counted as non-trivial there: calls of run() / run_timeout() == true that had to derive at least one tuple and were compared with the least model of the rows present.  PLUS macro renderings: " + c01_macroexpr.RULE + "; counted as non-trivial there: (rendering, input) runs whose least model has derived tuples",
                 samples=sample, distribution=dict(programs=len(results), shapes=shapes, features=feats, recursive_deriving_runs=nrec),
                 mismatches=mism,
                 trusted_base=["FRONT hook (ascent_macro/src/verif_hook.rs, feature verif_hooks) printing the MIR plan; gen/dl.py translating the dump into the Coq plan term; gen/prog.py generated crates + canonicaliser",
@@ -188,6 +199,7 @@ def tie(tier, seed, replay):
                 assumptions=["column values are small i32 (no overflow in the vocabulary functions)", "hash-map iteration order is not modelled: relation contents are compared as sets plus row counts"],
                 extra=dict(cases_skipped_model_too_slow=nskipped, programs=len(results), stratum_order_family=scc_cov, plans_validated=sum(1 for r in results if r["valid"] is True),
                            planner_model_vs_dumped_plan={k: v for k, v in plan_stats.items() if k in ("evaluations", "wf_core_holds", "sccs_ok_holds", "untranslatable", "not_compiled", "features")},
+                           expressions_through_macro_invocations=mx_stats,
                            indexed_engine_vs_real_index_fields=(dict(idx["coverage"], histories=idx["evaluations"], rule=idx["rule"]) if idx else None)))
 
 
